@@ -544,7 +544,11 @@ func upRunVariant(c *upCase, v upVariant, useLocal bool, salt int, anyStored boo
 	if v.setup != nil && !a.ffs.fired && ok {
 		// the storage fault was never delivered (the server wrote this file with fewer calls than
 		// the position chosen): a fault-free upload, which must then be complete
-		c = &upCase{Files: c.Files, Recs: c.Recs, OK: true, Visible: upAllVisible(c.Files, c.Recs)}
+		all := make([]int, c.Files)
+		for i := range all {
+			all[i] = i + 1
+		}
+		c = &upCase{Files: c.Files, Recs: c.Recs, OK: true, Visible: upAllVisible(c.Files, c.Recs), Stored: all}
 	}
 	if anyStored && ok {
 		// a cut so late that the server had everything: then all of it must be there
